@@ -192,7 +192,9 @@ def run_case(case):
         rec = {}
 
         def wrap(name, after):
-            orig = getattr(cutter, name)
+            orig = getattr(cutter, name, None)
+            if orig is None:      # private helper renamed / inlined: the intermediate set is simply not observed
+                return
 
             def w(*a, **k):
                 r = orig(*a, **k)
@@ -245,9 +247,13 @@ def run_case(case):
         def read_graph():
             try:
                 g = cutter.cut_graph
-                sel = g.vertices.get_attribute("selection")
+                try:
+                    sel = g.vertices.get_attribute("selection")
+                    selected = sorted(int(i) for i in range(len(g.vertices)) if sel[i])
+                except Exception:   # the marking attribute is a debugging aid the property does not name
+                    selected = None
                 obs["cut_graph"] = {"nv": len(g.vertices), "edges": sorted(sorted(_ints(e)) for e in g.edges),
-                                    "selected": sorted(int(i) for i in range(len(g.vertices)) if sel[i]),
+                                    "selected": selected,
                                     "verts": [[int(x) if float(x) == int(x) else float(x) for x in p] for p in g.vertices]}
             except Exception as ex:  # noqa
                 obs["cut_graph"] = {"error": "%s: %s" % (type(ex).__name__, ex)}
